@@ -55,3 +55,6 @@ Inductive pkind := PForwarding | PLvalueRef | PConstRef | PRvalueRef.
 Inductive fhow := HMove | HForward.
 Inductive fsink := SNone | SConstRef | SByValue | SRvalueRef | SUnknown.
 Record fwd_site := { fs_fn : string; fs_param : string; fs_pkind : pkind; fs_how : fhow; fs_sink : fsink }.
+
+(* a variable with static or thread storage duration declared by the library *)
+Record static_var := { sv_name : string; sv_where : string; sv_thread_local : bool; sv_const : bool }.
